@@ -70,7 +70,8 @@ WFObs(pj) ==
   LET ns == Len(pj.S) IN
   /\ Len(pj.M) = 3 /\ Len(pj.H) = 4
   /\ \A m \in DOMAIN pj.M : pj.M[m].al =>
-        /\ Len(pj.M[m].n) = 7 /\ Len(pj.M[m].np) = 7 /\ Len(pj.M[m].npp) = 7
+        /\ Len(pj.M[m].n) = 7 /\ Len(pj.M[m].np) = 7 /\ Len(pj.M[m].npp) = 7 /\ Len(pj.M[m].npw) = 7
+        /\ InR(pj.M[m].perw, 1, ns + 1)
         /\ Len(pj.M[m].fd) = NKeys /\ Len(pj.M[m].ex) = NKeys
         /\ InR(pj.M[m].fd, 0, ns + 1) /\ InR(pj.M[m].trk, 1, ns + 1) /\ InR(pj.M[m].per, 1, ns + 1)
         /\ pj.M[m].posh >= 0 /\ pj.M[m].posh <= ns
@@ -78,6 +79,14 @@ WFObs(pj) ==
         /\ WFKern(pj.M[m].kern)
   /\ \A h \in DOMAIN pj.H : pj.H[h].st >= 0 /\ pj.H[h].st <= ns
   /\ \A i \in DOMAIN pj.S : pj.S[i].lv => pj.S[i].tr \in 0 .. 3
+
+(* the per-kind convenience API reports what the generic templates report:   *)
+(* n_<kind>_props() = n_props<Kind>(), <kind>_props_begin()/end() enumerate   *)
+(* the persistent properties of the kind                                      *)
+WrappersAgree(pj) ==
+  \A m \in DOMAIN pj.M : pj.M[m].al =>
+     /\ pj.M[m].npw = pj.M[m].np
+     /\ Len(pj.M[m].perw) = Len(pj.M[m].per) /\ Rng(pj.M[m].perw) = Rng(pj.M[m].per)
 
 (* what the storage says about itself agrees with the tracker that lists it *)
 AttachedIffTracked(pj) == \A i \in DOMAIN pj.S : pj.S[i].lv => (pj.S[i].att = (pj.S[i].tr # 0))
@@ -136,6 +145,7 @@ LineCheck(i) ==
         IF ~WFObs(ln.post) THEN "OBS:Malformed"
         ELSE IF ~inC THEN ""
         ELSE IF ~AttachedIffTracked(ln.post) THEN "OBS:AttachedIffTracked"
+        ELSE IF Want("C14") /\ ~WrappersAgree(ln.post) THEN "C14:WrappersAgree"
         ELSE IF Want("C14") /\ i14 # "" THEN "C14:" \o i14
         ELSE IF Want("C14") /\ ~RelC14(p, q, c, ret) THEN "C14:Rel:" \o c.op
         ELSE IF Want("C13") /\ i13 # "" THEN "C13:" \o i13
